@@ -23,10 +23,11 @@ KF_C19_BlankWrappers(t, c) ==
                      /\ IsBlankLine(LineText(t, d.br, e.lc - 1))
 
 (***************************************************************************)
-(* C19-blank-wrapper-lead: an unwrap-block whose opening wrapper line is    *)
-(* blank and is followed by a line that begins (after its indentation) with *)
-(* an element lying wholly on that line, with text of the line behind it    *)
-(* ("<x>old</x> code;").  When an earlier run removes that element,         *)
+(* C19-blank-wrapper-lead: an unwrap-block with a blank wrapper line        *)
+(* (opening or closing) that is followed by a line beginning (after its     *)
+(* indentation) with an element lying wholly on that line, with text of the *)
+(* line behind it ("<x>old</x> code;", or "<x>old</x> </block>" when the    *)
+(* blank line is the closing wrapper line).  When an earlier run removes that element,         *)
 (* PrevLineBreakRemover deletes the blank line in front of the position     *)
 (* although code follows on the line (the repository's own test of the      *)
 (* formatter pins this: a removal directly in front of "</div>" takes the   *)
@@ -37,12 +38,13 @@ KF_C19_BlankWrapperLead(t, c) ==
   LET d == Doc(t, c) IN
   \E e \in d.elems :
      /\ e.uw /\ e.m >= 2
-     /\ IsBlankLine(LineText(t, d.br, e.lo + 1))
-     /\ \E x \in d.elems :
-           LET k == e.lo + 2 IN
-           /\ LineOf(d.br, x.os) = k /\ LineOf(d.br, x.ce - 1) = k
-           /\ AllBlank(Slice(t, LineS(d.br, k), x.os))
-           /\ ~AllBlank(Slice(t, x.ce, LineE(t, d.br, k)))
+     /\ \E w \in {e.lo + 1, e.lc - 1} :            \* a blank wrapper line, opening or closing
+           /\ IsBlankLine(LineText(t, d.br, w))
+           /\ \E x \in d.elems :
+                 LET k == w + 1 IN                 \* the line behind it begins with an element wholly on it, text follows
+                 /\ LineOf(d.br, x.os) = k /\ LineOf(d.br, x.ce - 1) = k
+                 /\ AllBlank(Slice(t, LineS(d.br, k), x.os))
+                 /\ ~AllBlank(Slice(t, x.ce, LineE(t, d.br, k)))
 
 Listed(prop, id, sig, who) == sig /\ PrintT(<<"KNOWN-FINDING", prop, id, who>>)
 =============================================================================
